@@ -177,6 +177,7 @@ EXPORT errno_t _mbsrtowcs_s_chk(size_t *restrict retvalp,
     }
     if (unlikely((char *)dest == (char *)srcp ||
                  (char *)dest == (char *)*srcp)) {
+        handle_werror(dest, dmax, "mbsrtowcs_s: overlapping objects", ESOVRLP);
         return RCNEGATE(ESOVRLP);
     }
 
